@@ -123,7 +123,7 @@ func ruleC05(c *Ctx) {
 	c.RequireGuard("guard", c.ScopeFunc(pto), "unknown output type rejected", func(v ssa.Value) bool { l, ok := v.(*ssa.Lookup); return ok && l.CommaOk })
 	// varstr reads are bounded by the remaining input
 	rv := c.Func("encoding/blockchain", "ReadVarstr31")
-	c.RequireGuard("guard", c.ScopeIf(rv, "non-empty string", 1, callsKey("encoding/blockchain.ReadVarint31"), func(v ssa.Value) bool { k, ok := v.(*ssa.Const); return ok && k.Value != nil && k.Value.ExactString() == "0" }), "string length bounded by the remaining input", readsField("encoding/blockchain.Reader", "buf"), callsKey("builtin:len"))
+	c.RequireGuard("guard", c.ScopeWhen(rv, "non-empty string", "call:encoding/blockchain.ReadVarint31#0 != 0"), "string length bounded by the remaining input", readsField("encoding/blockchain.Reader", "buf"), callsKey("builtin:len"))
 	for _, dm := range []*ssa.Function{c.Func("netsync/chainmgr", "decodeMessage"), c.Func("netsync/consensusmgr", "decodeMessage")} {
 		c.RequireGuard("guard", c.ScopeFunc(dm), "empty message rejected", callsKey("builtin:len"), paramN(0))
 	}
